@@ -750,6 +750,44 @@ func c01R2(c *Ctx) {
 					}
 				}
 			}
+			// the dispatch sits in a closure of the claiming function (handed to a helper that runs it): the captured
+			// variable holds what was last stored before the closure was made, provided nothing is stored afterwards
+			if len(rs) == 1 {
+				if ld, isLd := rs[0].(*ssa.UnOp); isLd && ld.Op == token.MUL {
+					if fv, isFV := ld.X.(*ssa.FreeVar); isFV && owner.Parent() != nil && !freeVarWritten(owner, fv) {
+						var next ssa.Value
+						nMk := 0
+						AllInstrs(owner.Parent(), func(in ssa.Instruction) {
+							mk, isMk := in.(*ssa.MakeClosure)
+							if !isMk || mk.Fn != ssa.Value(owner) {
+								return
+							}
+							nMk++
+							for i, b := range mk.Bindings {
+								cell, isCell := b.(*ssa.Alloc)
+								if owner.FreeVars[i] != fv || !isCell {
+									continue
+								}
+								sts := ReachingStores(cell, mk)
+								late := false
+								for _, st := range storesTo(cell) {
+									if Reachable(mk, st) {
+										late = true
+									}
+								}
+								if len(sts) == 1 && sts[0] != nil && !late && len(closureWriters(cell)) == 0 {
+									next = sts[0].Val
+								}
+							}
+						})
+						if nMk == 1 && next != nil {
+							v = next
+							owner = owner.Parent()
+							continue
+						}
+					}
+				}
+			}
 			if len(rs) != 1 {
 				c.Undecided(R, tn+"|successors-origin", gos[0].Pos(), "the dispatched successors slice has several reaching definitions")
 				v = nil
